@@ -556,7 +556,7 @@ func init() {
 					}
 					// the result is compared with the same number written out, and used as a number
 					one(item, append(append([]byte{0x82}, gen.PushNum(int64(L))...), 0x87, 0x69, 0x82, 0x8b, 0x75, 0x75, 0x51), fl) // SIZE <L> EQUAL VERIFY SIZE 1ADD DROP DROP 1
-					one(item, []byte{0x82, 0x00, 0xa2, 0x69, 0x75, 0x51}, fl)                                                        // SIZE 0 GREATERTHANOREQUAL VERIFY DROP 1
+					one(item, []byte{0x82, 0x00, 0xa2, 0x69, 0x75, 0x51}, fl)                                                       // SIZE 0 GREATERTHANOREQUAL VERIFY DROP 1
 				}
 			}
 			for k := 0; k <= 300; k++ {
@@ -575,9 +575,9 @@ func init() {
 							v = -v
 						}
 						for _, fl := range []uint32{0, gen2} {
-							one(append(gen.PushNum(v-1), 0x51), append(append([]byte{0x93}, gen.PushNum(v)...), 0x87), fl)                 // (v-1) 1 ADD v EQUAL
-							one(append(gen.PushNum(v+1), 0x51), append(append([]byte{0x94}, gen.PushNum(v)...), 0x87), fl)                 // (v+1) 1 SUB v EQUAL
-							one(gen.PushNum(v), append(append([]byte{0x8f, 0x8f}, gen.PushNum(v)...), 0x87), fl)                          // v NEGATE NEGATE v EQUAL
+							one(append(gen.PushNum(v-1), 0x51), append(append([]byte{0x93}, gen.PushNum(v)...), 0x87), fl)                  // (v-1) 1 ADD v EQUAL
+							one(append(gen.PushNum(v+1), 0x51), append(append([]byte{0x94}, gen.PushNum(v)...), 0x87), fl)                  // (v+1) 1 SUB v EQUAL
+							one(gen.PushNum(v), append(append([]byte{0x8f, 0x8f}, gen.PushNum(v)...), 0x87), fl)                            // v NEGATE NEGATE v EQUAL
 							one(gen.PushNum(v), append(append(append([]byte{0x76, 0x90}, gen.PushNum(abs64(v))...), 0x88), 0x75, 0x51), fl) // v DUP ABS |v| EQUALVERIFY DROP 1
 						}
 					}
